@@ -128,6 +128,24 @@ def run(db, chk) -> None:
             ok = any(H.match(f"self.traces[rank][$c] = self.traces[rank][$c].{meth}(lambda $i: {gm_name}[{lt_name}[$i]])", stores[0]) is not None for meth in ("apply", "map"))
         else:
             ok = False
+        if stores:
+            conds, jumps = [], []
+            cur = tm.parent.get(id(stores[0]))
+            loops_ = []
+            while cur is not None and cur is not f:
+                if isinstance(cur, (ast.If, ast.Try, ast.While)):
+                    # a guard that also encloses the parsing of that rank (nothing was loaded either) is not a skipped translation
+                    encloses_parse = any(isinstance(x, ast.Call) and (H.name_id(x.func) == "parse_trace_file" or (isinstance(x.func, ast.Attribute) and x.func.attr == "add_symbols")) for x in ast.walk(cur))
+                    if not encloses_parse:
+                        conds.append(ast.unparse(cur.test)[:80] if hasattr(cur, "test") else type(cur).__name__)
+                if isinstance(cur, ast.For):
+                    loops_.append(cur)
+                cur = tm.parent.get(id(cur))
+            for lp_ in loops_:
+                jumps += [type(x).__name__ for x in ast.walk(lp_) if isinstance(x, (ast.Continue, ast.Break)) and x.lineno < stores[0].lineno]
+            chk.ob("C11.R2-re-encoding", f"{q}: every rank's cat and name columns are re-encoded unconditionally (no guard, continue or break in front of the store)", not conds and not jumps, where,
+                   found={"conditions": conds, "jumps": jumps}, accepted="unconditional inside `for rank` / `for col`",
+                   why="skipping the translation when the tables merely have the same LENGTH leaves local ids that decode to other strings")
         verdict = ok if ok or narrowing or not stores else None
         chk.ob("C11.R2-re-encoding", f"{q}: new code of a cell = global_map[local_table[old code]] applied to the whole column, without a cast back to the old (narrow) dtype", verdict if not narrowing else False, where,
                found=det + ([f"narrowing cast: {x}" for x in narrowing]), accepted="self.traces[rank][col] = self.traces[rank][col].apply(lambda idx: global_map[local_table[idx]])",
